@@ -47,7 +47,7 @@ CHECKS = {
             "cue neither clamped nor removed. The extracted model is run against Subtitles.Add on every list of <=3 cues over a 0..4 grid x "
             "d in -6..6 and on random ns-granular lists; an independent Go oracle states the property on the implementation's result.",
             "Rocq proof over a Gallina model + extracted-model differential correspondence",
-            "durations are unbounded Z in the model (no int64 wrap-around: |values| < 2^62 in the property's domain)."),
+            "the theorems of the first part are over unbounded Z; the int64 layer ties them to Go's arithmetic (see the level text)."),
     "C14": (True,
             "Theorems for all well-formed timelines (start-ordered, non-decreasing ends, start<end; no size bound), all d>0 and both filler "
             "settings: ForceDuration = clipped cues starting before d ++ filler [d-1ms,d) iff requested and the kept part is empty or ends "
@@ -398,6 +398,71 @@ CHECKS = {
             "(outside it only panic vs no panic is compared)."),
 }
 
+# additions of the last wave, appended to the texts above: id -> (appended to the level text, appended to the note)
+INT64 = (" Go's int64 arithmetic: Model/Ops64.v redoes the operation's arithmetic with two's-complement wrap-around "
+         "(Kit/Int64.v) and %s proves it equal to the unbounded model under the exact no-overflow condition stated in the "
+         "theorem (a sufficient range: all times and parameters in [-2^62, 2^62)), so every theorem above transfers to the "
+         "library's arithmetic inside that range; outside it a computed witness shows the two differ (%s); the 64-bit model is "
+         "what the harness runs on values near +-2^63 (families *.huge), wrapped results included.")
+ADDENDA = {
+    "C01": (" The model's literals (separator, emphasis and font tags, escapes) are proved equal to the constants and string "
+            "literals of the Go source regenerated on every run (C01_constants_from_source, tools/genconsts).", ""),
+    "C02": (" Keywords, setting names, the two regexp patterns the tag/timestamp matchers were transcribed from and the default "
+            "style id are proved equal to the constants of the Go source regenerated on every run (C02_constants_from_source).", ""),
+    "C03": (" A line break inside a start tag of a paragraph's content (between the element name and an attribute, or between "
+            "attributes) is one of the renderings (C03_read_rendered_bytes_go; found false of the library by the second audit and "
+            "repaired there, repo 45c3eea; a line break inside a quoted attribute value of a span stays excluded by bytes_ok_go); "
+            "frame-based clock times carry their int64 bound (C03_time_clock_frames_int64); the 24 tts: attribute names in struct "
+            "order, the language table, element names and the two time regexps are proved equal to the struct tags, map entries "
+            "and patterns of the Go source regenerated on every run (C03_constants_from_source).",
+            " There is no C03_write_is_rendering: the rendering skeleton always has the three head sections, the writer omits "
+            "empty ones (C03.v comment); the writer's output is covered by C03_write_read_bytes_go and the independent decoder."),
+    "C04": (" The column names, script-info keys, section names, event categories, cell literals and the override-block regexp are "
+            "proved equal to the constants of the Go source regenerated on every run (C04_constants_from_source); event style "
+            "names the styles section does not declare are generated (the cue then has no style reference).", ""),
+    "C05": (" The writer's bytes are one of the renderings of the reading theorem, for open subtitling and for teletext rows with "
+            "the start box written or omitted (C05_write_is_rendering_open/_teletext, C05_write_denotes_*), so C05_read_rendered "
+            "covers the library's own output.",
+            " Outside the proviso (recorded as observations, model = library on 75 pinned cases): code points outside the "
+            "repertoire are written by their low byte and a row longer than 112 bytes is cut."),
+    "C07": (" Styled sources: for every source format a Gallina model of what each destination writer sees of the source reader's "
+            "cues (Model/ConvTtml.v, ConvStl.v, ConvStlVtt.v, ConvStlTtml.v, ConvTtx.v) with a theorem per pair that the "
+            "destination decodes to the source's plain view, the destination bytes compared with the library's on styled "
+            "documents; XML-illegal runes into TTML follow encoding/xml's substitution (write_ttml_bytes_go); conversion sources "
+            "carry programme titles up to 70 bytes with multi-byte characters and SSA events naming undeclared styles.", ""),
+    "C08": (" nil *Item elements of the cue list are skipped by all five writers: the STL and TTML checked writers go through "
+            "Kit.Chk.somes like the SubRip/WebVTT/SSA ones (C08_stl_writer_total_nil_items, C08_ttml_writer_total_nil_items) and "
+            "the harness passes lists with nil elements to the models.", ""),
+    "C09": (INT64 % ("C09_int64", "C09_int64_wraps: Add(10) on a cue ending at MaxInt64-5"), ""),
+    "C10": (INT64 % ("C10_int64", "C10_int64_diverges: Fragment(2^62) on [0, MaxInt64) never terminates - the fuelled model returns None for every fuel - and C10_piece_count bounds the pieces by (end-start)/f + 2") , ""),
+    "C11": (" C11_inverse_any drops the start<end hypothesis of the inverse law (the property has none); Unfragment, Order and Merge "
+            "do no arithmetic: their output times are drawn from the input times (C11_int64, C12_int64), so the models are already "
+            "their int64 models.", ""),
+    "C12": (" Merge and Order do no arithmetic on times: output times are drawn from the input times (C12_int64, C12_int64_merge).", ""),
+    "C13": (" References are followed through objects, definitions are kept by identifier: an item pointing to a style object "
+            "other than the one stored under its identifier (redirected pointers, suite optimize.alias) left a dangling parent "
+            "link in the library - found by the harness's oracle, repaired (repo a175e5f), seed C13-optimize-aliased-style-object.",
+            " wf_refs speaks about identifiers only (five conditions, spelled out in C13.v); the model's reading and the heap "
+            "reading coincide when every pointer targets the map's own entry."),
+    "C14": (INT64 % ("C14_int64 (C14_int64_range: the condition holds for every d >= 0)", "C14_int64_wraps: d within 1 ms of MinInt64")
+            + " Successive calls on the same value are judged call by call (the filler must be a new cue).", ""),
+    "C15": (" C15_int64: inside the property's domain the int64/float64 model of the code (wrapping subtraction, conversion to int64) "
+            "equals the model above and the result is an int64 value; the float-to-int64 conversion outside int64 follows amd64 "
+            "(Go leaves it implementation-defined) and rests on the bit-for-bit comparison, not on a proof.", ""),
+    "C17": (" Teletext: a Gallina model of the reader wrapper that fills every Read of the demultiplexer (Model/TtxFull.v) over the "
+            "schedule model: for every schedule the buffers the demultiplexer receives are the one-shot ones (C17_ttx_full_reads, "
+            "C17_ttx_full_reads_schedule_free), compared with the real wrapper on random data/schedules/request sizes; generated "
+            "transport streams (incl. one of 83 kB) x options x seekable / non-seekable / bufio readers x schedules against the "
+            "one-shot result of the same kind of reader.", ""),
+    "C18": (" Teletext wrapper: a fault at offset k surfaces at the Read that reaches k, earlier Reads are filled, nothing beyond k "
+            "is delivered (C18_ttx_fault_propagates). STL: an error delivered together with the last bytes of a block was dropped "
+            "by io.ReadFull - a stream failing there and then reporting end-of-file gave a truncated list with no error; repaired "
+            "(repo a01924f), modelled (C18_read_stl_fault_with_data), the STL fault suite now fails with and without data and "
+            "then is sticky, reports EOF, or resumes.", ""),
+    "C20": (" C20_frame_merge / C20_frame_private_op instantiate the frame theorem (goroutines merging the same read-only list "
+            "into private receivers; any unary operation on a private list).", ""),
+}
+
 PENDING = "check not built yet in this session (work in progress; see DESIGN.md section 7 for the plan)"
 
 
@@ -419,8 +484,8 @@ def main():
             "evidence_file": "evidence/%s.json" % pid,
             "replay_cmd_template": "bin/check %s quick --replay {path}" % pid,
             "engine": "rocq-model+correspondence",
-            "level_claimed": {"category": "proof", "text": c[1], "design_ref": "DESIGN.md section 7, " + pid},
-            "level_note": TRUST + " " + c[3],
+            "level_claimed": {"category": "proof", "text": c[1] + ADDENDA.get(pid, ("", ""))[0], "design_ref": "DESIGN.md section 7 and 13.2, " + pid},
+            "level_note": TRUST + " " + c[3] + ADDENDA.get(pid, ("", ""))[1],
             "technique": c[2],
         })
     m = {
